@@ -25,7 +25,8 @@ ASSUMPTIONS = [
 EXHAUSTIVE = {'quick': False, 'thorough': False}
 CONFIGS = [{'connect_retry': 60, 'hold': 180, 'idle_hold': 30}, {'connect_retry': 5, 'hold': 9, 'idle_hold': 5},
            {'connect_retry': 30, 'hold': 180, 'idle_hold': 30}, {'connect_retry': 60, 'hold': 180, 'idle_hold': 0},
-           {'connect_retry': 1, 'hold': 3, 'idle_hold': 2}, {'connect_retry': 60, 'hold': 0, 'idle_hold': 30}]
+           {'connect_retry': 1, 'hold': 3, 'idle_hold': 2}, {'connect_retry': 60, 'hold': 0, 'idle_hold': 30},
+           {'connect_retry': 60, 'hold': 180, 'idle_hold': 30, 'seg': 3}]
 
 
 def pick13(enabled, choice):
